@@ -164,9 +164,17 @@ func decide(site int32, n int) (OrderRule, int32) {
 			}
 		}
 	} else if o.wsum > 0 {
-		// always draw, so that the stream does not depend on map sizes
-		r1 := next64(&o.rng)
-		r2 := next64(&o.rng)
+		// The decision for the nth visit of a site depends on (operation seed,
+		// site, n) only - not on how many other map ranges ran before it. Two
+		// executions of one operation that differ in the visits of some OTHER
+		// site (a private memo that copies its table by ranging over it on a
+		// miss, and hits or misses depending on what other tasks did) must give
+		// the sites they share the same orders, or a legal order-dependence of
+		// the library would look like interference between tasks (C11's
+		// solo-vs-concurrent comparison; it did once: DESIGN.md section 11).
+		k := Mix(o.cfg.Seed, uint64(uint32(site))+1)
+		r1 := Mix(k, uint64(nth)<<1|1)
+		r2 := Mix(k, uint64(nth)<<1)
 		perturb := true
 		if len(o.cfg.SiteOnly) > 0 {
 			perturb = false
